@@ -11,6 +11,7 @@ REGISTRY = {
     "C06": ("harness.checks.dorfler_check", "C06"),
     "C19": ("harness.checks.grade_check", "C19"),
     "C16": ("harness.checks.quad_check", "C16"),
+    "C18": ("harness.checks.curves_check", "C18"),
 }
 
 
